@@ -8,7 +8,7 @@ from ..runner import Stream, Ctx
 VARIANTS = ["rel", "san"]
 EXTRACTORS = ["extract_asserts"]
 RULE = ("union of the op streams of C01,C02,C04,C05,C06,C07,C08,C09,C12,C13,C14 (thinned to a per-stream cap) executed on the "
-        "-fsanitize=address,undefined -DENABLE_ASSERT build; an op is non-trivial if it reaches library code (all do); "
+        "-fsanitize=address,undefined,float-cast-overflow -DENABLE_ASSERT build; an op is non-trivial if it reaches library code (all do); "
         "distinct = distinct op lines")
 TRUSTED = ["for unmodelled code (primesieve internals, iostream, libdivide) the sanitizer run is validation only",
            "assertion inventory: translator/extract_asserts.py (104 sites; modelled files listed in PcProps/C16.lean)"]
@@ -87,9 +87,17 @@ def streams(ctx):
     big = ["phi_t 2000000000000000 200 16", "phi_t 2000000000000000 199 16", "phi_t 1300000000000000 131 1",
            "phi_t 10000000000000000 250 16", "alg meissel 2000000000000000 16", "alg legendre 1300000000000000 16"]
     env = {"OMP_NUM_THREADS": "16", "ASAN_OPTIONS": "detect_leaks=0:abort_on_error=0:print_legend=0",
-           "UBSAN_OPTIONS": "print_stacktrace=1:halt_on_error=1"}
+           "UBSAN_OPTIONS": "print_stacktrace=1:halt_on_error=1", "PCV_OP_TIMEOUT": "900"}
     out.append(Stream("san:large-magnitude", big, oracle=True, variant="san", env=env,
                       model_ops=lambda ops, impl: ["# " + o for o in ops],
                       judge=lambda ops, impl, mops, model: [], timeout=1800,
+                      classify=lambda o, r: "ERR" if r.startswith("ERR") else "ok"))
+    # the tuning setters take ANY double: the thinned c12 stream above keeps only a few of them, so all of them run here.
+    # Needs -fsanitize=float-cast-overflow (not part of -fsanitize=undefined), which the `san` variant enables.
+    from .. import params_streams
+    out.append(Stream("san:tuning-setters", params_streams.setter_ops(Ctx(ctx.pid + "/setters", ctx.tier, ctx.seed)),
+                      oracle=True, variant="san", env=env,
+                      model_ops=lambda ops, impl: ["# " + o for o in ops],
+                      judge=lambda ops, impl, mops, model: [], timeout=600,
                       classify=lambda o, r: "ERR" if r.startswith("ERR") else "ok"))
     return out
